@@ -121,27 +121,51 @@ func (y *c30Sys) restore(sn c30Snap) {
 	st.sets[0].noSlotNodes = make(map[peer.ID]struct{})
 	y.ps.reservedNode = make(map[peer.ID]struct{})
 	now := time.Now()
-	// a fresh random insertion order: together with Go's random iteration start every
-	// iteration order of the three maps is reachable by retrying
-	order := [c30NP]int{0, 1, 2, 3, 4}
-	for i := c30NP - 1; i > 0; i-- {
-		j := c30Shuffle.Intn(i + 1)
-		order[i], order[j] = order[j], order[i]
+	// A fresh random bucket layout for the two maps the code iterates over (insertion order of the
+	// keys plus up to three holes left by deleted dummy keys, which later insertions of the op fill
+	// first): together with Go's random iteration start every iteration order that some history
+	// of the maps could produce is reachable by retrying.
+	layout := func() []int {
+		seq := []int{0, 1, 2, 3, 4}
+		for k := c30Shuffle.Intn(4); k > 0; k-- {
+			seq = append(seq, -k)
+		}
+		for i := len(seq) - 1; i > 0; i-- {
+			j := c30Shuffle.Intn(i + 1)
+			seq[i], seq[j] = seq[j], seq[i]
+		}
+		return seq
 	}
-	for _, i := range order {
-		id := c30IDs[i]
+	dummy := func(k int) peer.ID { return peer.ID("dummy" + strconv.Itoa(-k)) }
+	for _, i := range layout() {
+		if i < 0 {
+			st.nodes[dummy(i)] = nil
+			continue
+		}
 		if sn.nodes[i].has {
-			st.nodes[id] = &node{
+			st.nodes[c30IDs[i]] = &node{
 				state:         []MembershipState{sn.nodes[i].state},
 				lastConnected: []time.Time{now},
 				reputation:    sn.nodes[i].rep,
 			}
 		}
-		if sn.noSlot[i] {
-			st.sets[0].noSlotNodes[id] = struct{}{}
+	}
+	for _, i := range layout() {
+		if i < 0 {
+			y.ps.reservedNode[dummy(i)] = struct{}{}
+			continue
 		}
 		if sn.reserved[i] {
-			y.ps.reservedNode[id] = struct{}{}
+			y.ps.reservedNode[c30IDs[i]] = struct{}{}
+		}
+	}
+	for k := 1; k <= 3; k++ {
+		delete(st.nodes, dummy(-k))
+		delete(y.ps.reservedNode, dummy(-k))
+	}
+	for i, id := range c30IDs {
+		if sn.noSlot[i] {
+			st.sets[0].noSlotNodes[id] = struct{}{}
 		}
 	}
 	st.sets[0].numIn, st.sets[0].numOut = sn.numIn, sn.numOut
